@@ -188,9 +188,10 @@ func (s *scen) header(b *rBlock) string {
 		return ""
 	}
 	s.step++
+	refTooDeep := s.refTooDeep(b)
 	out := s.realHeader(b.raw)
 	s.ops = append(s.ops, fmt.Sprintf("header  #%d h=%d parent=#%d %s bits=%08x -> %s (tip #%d)", b.idx, b.Height, b.Parent.idx, b.label, b.Bits, out, s.tipIdx()))
-	if b.linked < 0 && (b.Parent.Parent == nil || b.Parent.linked >= 0) {
+	if b.linked < 0 && (b.Parent.Parent == nil || b.Parent.linked >= 0) && !refTooDeep {
 		b.linked = s.seq
 	}
 	s.seq++
@@ -449,6 +450,88 @@ func headerCorpus() []corpusEntry {
 			s.commit(a[2])
 			s.idle()
 			s.undoLast()
+		}},
+		{name: "fork-40-below-the-tip", opts: tn, run: func(s *scen) {
+			// the fork-depth rule compares with 2016: a block whose height is 40 below the tip's is stored aside like any
+			// other side block (as a whole block and header first), and when its branch overtakes, the node follows it
+			tip := s.base(150)
+			all := allCoins(s)
+			anc := tip
+			for i := 0; i < 41; i++ {
+				anc = anc.Parent
+			}
+			s1 := s.addBlock(anc, blockOpts{label: "side-40-below"})
+			if out := s.deliver(s1); out != "ok" && !s.dead {
+				s.tieFail("fork-depth", "a side block 40 below the tip was not stored: "+out)
+				return
+			}
+			r.Hit("fork-depth/40-below-accepted")
+			h1 := s.addBlock(anc, blockOpts{label: "side-40-below-header-first"})
+			if out := s.header(h1); out != "ok" && !s.dead {
+				s.tieFail("fork-depth", "the header of a side block 40 below the tip was refused: "+out)
+				return
+			}
+			s.commit(h1)
+			p := s1
+			for i := 0; i < 41 && !s.dead; i++ { // s1's branch: equal work at 40 more blocks, more at 41
+				p = s.addBlock(p, blockOpts{label: "side-grows"})
+				s.deliver(p)
+			}
+			_ = all
+			s.idle()
+			s.undoLast()
+		}},
+		{name: "fork-depth-2015-and-2016-below-the-tip", thoroughOnly: true, opts: tn, run: func(s *scen) {
+			// the boundary of PreCheckBlock's rule `prevblk != lst_now && lst_now.Height - bl.Height >= 2016`, for a whole block
+			// and for a header alone: 2015 below is stored aside, 2016 below is refused ("hooks too deep") — and one block later
+			// the level that was just allowed is closed while a child of the stored side block is still welcome
+			s.bulk, s.quietBase = true, true
+			tip := s.blocks[0]
+			for i := 0; i < 2030 && !s.dead; i++ {
+				tip = s.addBlock(tip, blockOpts{label: "base"})
+				if out := s.deliver(tip); out != "ok" && !s.dead {
+					s.tieFail("deep-setup", fmt.Sprintf("base block at height %d refused: %s", tip.Height, out))
+				}
+			}
+			s.bulk, s.quietBase = false, false
+			if s.dead {
+				return
+			}
+			anc := func(k int) *rBlock {
+				x := tip
+				for i := 0; i < k; i++ {
+					x = x.Parent
+				}
+				return x
+			}
+			want := func(what, got, exp string) bool {
+				if s.dead {
+					return false
+				}
+				if got != exp {
+					s.tieFail("fork-depth", what+": answer "+got+", expected "+exp)
+					return false
+				}
+				r.Hit("fork-depth/" + what + "=" + exp)
+				return true
+			}
+			s1 := s.addBlock(anc(2016), blockOpts{label: "side-2015-below"})
+			s2 := s.addBlock(anc(2017), blockOpts{label: "side-2016-below"})
+			h1 := s.addBlock(anc(2016), blockOpts{label: "hdr-2015-below"})
+			h2 := s.addBlock(anc(2017), blockOpts{label: "hdr-2016-below"})
+			if !want("block-2015-below", s.deliver(s1), "ok") || !want("block-2016-below", s.deliver(s2), "toodeep") ||
+				!want("header-2015-below", s.header(h1), "ok") || !want("header-2016-below", s.header(h2), "toodeep") ||
+				!want("data-of-header-2015-below", s.commit(h1), "ok") || !want("data-of-refused-header", s.commit(h2), "noheader") {
+				return
+			}
+			tip = s.addBlock(tip, blockOpts{label: "base"})
+			s.deliver(tip)
+			s3 := s.addBlock(s1.Parent, blockOpts{label: "side-now-2016-below"})
+			c1 := s.addBlock(s1, blockOpts{label: "child-of-stored-side-block"})
+			if !want("block-2016-below-after-growth", s.deliver(s3), "toodeep") || !want("child-2015-below", s.deliver(c1), "ok") {
+				return
+			}
+			s.idle()
 		}},
 		{name: "block-on-top-of-a-header-only-node", opts: tn, run: func(s *scen) {
 			// CheckBlock + AcceptBlock (the RPC / import path) for a block whose PARENT is only a header: the block is stored
